@@ -364,6 +364,17 @@ fn git_parse(dir: &std::path::Path, s: &str) -> Git {
     Git::Parsed(secs, o)
 }
 
+/// development aid: with C52_DUMP=<file> every violation message is appended to that file
+fn dump(v: Verdict) -> Verdict {
+    if let (Err(m), Ok(path)) = (&v, std::env::var("C52_DUMP")) {
+        use std::io::Write;
+        if let Ok(mut f) = std::fs::OpenOptions::new().create(true).append(true).open(path) {
+            let _ = writeln!(f, "{m}");
+        }
+    }
+    v
+}
+
 pub fn run(run: &'static Run) {
     run.rule(
         "roundtrip: instants = every i64 boundary (0, +-2^k(+-1), +-10^k(+-1), MIN, MAX) + calendar boundaries (24 years from -9999 to 9999 incl. 0/1/1000/1900/1970/2000/2038/2100 x \
@@ -382,6 +393,7 @@ pub fn run(run: &'static Run) {
     run.assume("strings gitoxide refuses are outside the comparison (the property speaks about the formats gitoxide accepts); relative dates are not absolute formats and are not generated");
     run.budget_secs(run.pick(35.0, 540.0));
 
+    let t0 = std::time::Instant::now();
     let insts = instants();
     let offs = offsets();
     run.sub(
@@ -396,7 +408,7 @@ pub fn run(run: &'static Run) {
                 }
             }
         },
-        |c: &RtCase| -> Verdict {
+        |c: &RtCase| -> Verdict { dump((|| -> Verdict {
             let Some(fi) = FORMATS.iter().position(|f| *f == c.format) else { vkit::machinery!("unknown format {}", c.format) };
             let fi = fi as u8;
             let t = Time { seconds: c.seconds, offset: c.offset, sign: if c.minus { Sign::Minus } else { Sign::Plus } };
@@ -437,8 +449,9 @@ pub fn run(run: &'static Run) {
                     }
                 }
             }
-        },
+        })()) },
     );
+    eprintln!("roundtrip done at {:.1}s", t0.elapsed().as_secs_f64());
 
     // ---- absolute strings vs git ----
     let dir = vkit::scratch::Dir::new("c52git");
@@ -463,7 +476,7 @@ pub fn run(run: &'static Run) {
                 });
             }
         },
-        |c: &GitCase| -> Verdict {
+        |c: &GitCase| -> Verdict { dump((|| -> Verdict {
             let ours = match vkit::catch(|| gix_date::parse(&c.text, None)) {
                 Err(p) => return bad("parse-panic", format!("parse({:?}) panics: {p}", c.text)),
                 Ok(Err(_)) => return ok_trivial("gitoxide-refuses"),
@@ -481,8 +494,9 @@ pub fn run(run: &'static Run) {
                     bad(class, format!("{:?}: gitoxide parses seconds {} offset {}, git parses seconds {s} offset {o}", c.text, ours.seconds, ours.offset))
                 }
             }
-        },
+        })()) },
     );
+    eprintln!("git-parse done at {:.1}s", t0.elapsed().as_secs_f64());
     run.cov_add("oracle_calls_git", git_calls.load(Ordering::Relaxed));
     run.require("git and gitoxide agreed on at least 100 accepted strings", agree.load(Ordering::Relaxed) >= 100);
     for g in ["iso8601", "iso8601-strict", "rfc2822", "gitoxide", "default", "raw-unix"] {
